@@ -27,6 +27,7 @@ TARGETS = ["Units/Gen_Tables.vo", "Units/Dispatch.vo", "Props/C16.vo"]
 TABLE_CHECKS = ["classes_plain", "mul_closed", "div_closed", "sidict", "sisig_agrees", "mul_table", "div_table",
                 "base_factor", "dimensionless", "siunits"]
 CMPS = ["==", "!=", "<", "<=", ">", ">="]
+OPW = {"*": "*", "/": "-over-", "+": "+", "-": "-minus-", "==": "-eq-", "!=": "-ne-", "<": "-lt-", "<=": "-le-", ">": "-gt-", ">=": "-ge-"}
 
 
 # ------------------------------------------------------------------ generation
@@ -156,7 +157,7 @@ def gen_cases(ctx, rng: random.Random, tier: str):
         for d, h, t in UU.FORMATS:
             add("class-siunit", {"k": "siunit", "x": q_spec(ctx, rng, a, base=True), "div": d, "hat": h, "dot": t})
     # 7. SI construction from text, unit text of results, printer
-    n_sig = 500 if tier == "quick" else 4000
+    n_sig = 160 if tier == "quick" else 4000
     for i in range(n_sig):
         lim = rng.choice([1, 3, 9])
         sig = rnd_sig(rng, lim, dense=(i % 3 == 0))
@@ -208,35 +209,36 @@ def oracle(ctx, spec, out, ops):
         x, y = ops
         op = spec["op"]
         kx, ky = kind_name(x), kind_name(y)
+        opw = OPW[op]
         if "str" in (x["t"], y["t"]):
             if "raise" in out or (op in ("==", "!=") and out.get("bool") == (op == "!=")):
                 return None
-            return (f"str-operand-accepted:{kx}{op}{ky}", f"{kx} {op} {ky} returned {out} instead of being refused")
+            return (f"str-operand-accepted:{kx}{opw}{ky}", f"{kx} {op} {ky} returned {out} instead of being refused")
         fx, fy = UU.unhex(x["si"]), UU.unhex(y["si"])
         if op in ("*", "/"):
             if op == "/" and fy == 0.0:
                 return None
             tag = "mul" if op == "*" else "div"
             if "val" not in out:
-                return (f"{tag}-raises:{kx}{op}{ky}", f"{kx} {op} {ky} gave {out} on {x} , {y}")
+                return (f"{tag}-raises:{kx}{opw}{ky}", f"{kx} {op} {ky} gave {out} on {x} , {y}")
             r = out["val"]
             es = [a + b for a, b in zip(opsig(ctx, x), opsig(ctx, y))] if op == "*" else \
                  [a - b for a, b in zip(opsig(ctx, x), opsig(ctx, y))]
             ev = fx * fy if op == "*" else fx / fy
             rn = kind_name(r)
             if r["t"] not in ("q", "si"):
-                return (f"{tag}-result-not-a-quantity:{kx}{op}{ky}", f"{kx} {op} {ky} returned {r}")
+                return (f"{tag}-result-not-a-quantity:{kx}{opw}{ky}", f"{kx} {op} {ky} returned {r}")
             if opsig(ctx, r) != es:
-                return (f"{tag}-signature-wrong:{kx}{op}{ky}->{rn}",
+                return (f"{tag}-signature-wrong:{kx}{opw}{ky}->{rn}",
                         f"{kx} {op} {ky} returned a {rn} with SI signature {opsig(ctx, r)}; the operands' signatures "
                         f"{opsig(ctx, x)} and {opsig(ctx, y)} give {es}")
             if r["si"] != UU.fhex(ev) and not (ev != ev and UU.unhex(r["si"]) != UU.unhex(r["si"])):
-                return (f"{tag}-si-value-wrong:{kx}{op}{ky}->{rn}",
+                return (f"{tag}-si-value-wrong:{kx}{opw}{ky}->{rn}",
                         f"{kx} {op} {ky}: SI value {UU.unhex(r['si'])!r}, operands' SI values {fx!r} {op} {fy!r} = {ev!r}")
             if "number" in (kx, ky) and not (op == "/" and kx == "number"):
                 q = y if kx == "number" else x
                 if r["t"] != q["t"] or r.get("cls") != q.get("cls") or r.get("unit") != q.get("unit"):
-                    return (f"scaling-changes-type:{kx}{op}{ky}", f"{kx} {op} {ky} returned {r}")
+                    return (f"scaling-changes-type:{kx}{opw}{ky}", f"{kx} {op} {ky} returned {r}")
             return None
         same = (x["t"] == "q" and y["t"] == "q" and x["cls"] == y["cls"]) or \
                (x["t"] == "si" and y["t"] == "si" and x["sig"] == y["sig"])
@@ -255,15 +257,15 @@ def oracle(ctx, spec, out, ops):
                 return (f"si-{tag}-mixed-signature-accepted",
                         f"SI {op} SI with different signatures {x['sig']} and {y['sig']} returned {out['val'] if 'val' in out else out} "
                         "instead of being refused")
-            return (f"mixed-{tag}-accepted:{kx}{op}{ky}", f"{x} {op} {y} returned {out} instead of being refused")
+            return (f"mixed-{tag}-accepted:{kx}{opw}{ky}", f"{x} {op} {y} returned {out} instead of being refused")
         # comparisons
         if same:
             ev = {"==": fx == fy, "!=": fx != fy, "<": fx < fy, "<=": fx <= fy, ">": fx > fy, ">=": fx >= fy}[op]
             return None if out.get("bool") is ev else (f"same-type-compare-wrong:{kx}", f"{x} {op} {y} gave {out}, SI values give {ev}")
         if op in ("==", "!="):
             return None if out.get("bool") is (op == "!=") else \
-                (f"mixed-compare-accepted:{kx}{op}{ky}", f"{x} {op} {y} gave {out}")
-        return None if "raise" in out else (f"mixed-compare-accepted:{kx}{op}{ky}",
+                (f"mixed-compare-accepted:{kx}{opw}{ky}", f"{x} {op} {y} gave {out}")
+        return None if "raise" in out else (f"mixed-compare-accepted:{kx}{opw}{ky}",
                                             f"ordering {x} {op} {y} returned {out} instead of being refused")
     if k == "as_quantity":
         x = ops[0]
@@ -331,7 +333,7 @@ def table_violations(run, ctx, coq_off, py_off, names):
                 op = "*" if check == "mul_table" else "/"
                 tag = "mul" if op == "*" else "div"
                 if "other" in o:
-                    sig = f"{tag}-signature-wrong:{o['cls']}{op}{o['other']}->{o['result']}"
+                    sig = f"{tag}-signature-wrong:{o['cls']}{OPW[op]}{o['other']}->{o['result']}"
                     what = (f"{o['cls']}._{tag} maps {o['other']} to {o['result']} whose SI signature {o['result_sig']} is not "
                             f"the {'sum' if op == '*' else 'difference'} {o['expected_sig']} of the operands' signatures")
                 else:
@@ -354,7 +356,7 @@ def table_violations(run, ctx, coq_off, py_off, names):
 
 # ------------------------------------------------------------------ main
 def main(tier: str) -> int:
-    run = C.Run(PID, tier)
+    run = UU.SafeRun(PID, tier)
     try:
         dump = UU.regen()
         U = UU.load_units()
@@ -362,6 +364,9 @@ def main(tier: str) -> int:
         run.violation("harness-cannot-load-units", f"translator / import failed: {type(exc).__name__}: {exc}", {}, found_input=False)
         return run.finish()
     ctx = UU.Ctx(U, dump)
+    import time as _t
+    phase = {"translate": round(_t.time() - run.t0, 1)}
+    _t0 = _t.time()
     proofs_ok = run.check_proofs(TARGETS, extra_tb=[
         "reflective translator translator/dump_units.py (tables regenerated from the imported module on every run; "
         "read back and compared with the live classes)",
@@ -371,6 +376,9 @@ def main(tier: str) -> int:
         "Python operator dispatch (reflected methods, subclass priority) is transcribed by hand in Units/Dispatch.v",
     ])
     run.cov["translator"] = dump["_log"]
+    phase["build_and_recheck_props"] = round(_t.time() - _t0, 1)
+    _t0 = _t.time()
+    run.cov["phase_s"] = phase
 
     # ---- table checks: Coq offender lists and the independent Python evaluation
     coq_off, counts, err = UU.coq_table_offenders(PID, UU.C16_CHECKS)
@@ -389,6 +397,8 @@ def main(tier: str) -> int:
     run.cov["table_entries"] = {"classes": len(ctx.names), "mul_entries": sum(len(c["mul"]) for c in dump["classes"]),
                                 "div_entries": sum(len(c["div"]) for c in dump["classes"])}
 
+    phase["table_checks"] = round(_t.time() - _t0, 1)
+    _t0 = _t.time()
     # ---- cases
     rng = random.Random(run.seed * 104729 + 16)
     specs = []
@@ -451,22 +461,33 @@ def main(tier: str) -> int:
         run.add_sample({"call": cs["spec"], "operands": cs["ops"], "observed": cs["out"]})
 
     # ---- oracle findings (concrete failing inputs on the real code)
+    families = {}
+    for sig in fails:
+        families.setdefault(sig.split(":", 1)[0], []).append(sig)
     for sig, (cs, bad) in fails.items():
+        fam = families[sig.split(":", 1)[0]]
+        if fam.index(sig) >= 3:          # a systematic failure: three concrete inputs per kind are enough
+            continue
+        more = f" [{len(fam)} operand-type combinations fail this way]" if len(fam) > 3 and fam.index(sig) == 0 else ""
+        bad = (bad[0], bad[1] + more)
         small = simplify(ctx, cs["spec"])
         if small:
             o2, ops2, _ = UU.run_call(ctx, small)
             b2 = oracle(ctx, small, o2, ops2)
             if b2 and b2[0] == sig:
-                cs, bad = {"spec": small, "out": o2, "ops": ops2}, b2
+                cs, bad = {"spec": small, "out": o2, "ops": ops2}, (b2[0], b2[1] + more)
         run.violation(sig, bad[1], {"call": cs["spec"], "operands": cs["ops"], "observed": cs["out"],
                                     "how": "build the operands with pydsol.core.units (cls(value, unit) / SI(value, text)) and apply the operator"})
 
+    phase["run_implementation_and_oracle"] = round(_t.time() - _t0, 1)
+    _t0 = _t.time()
     # ---- model vs implementation inside coqc
     mism, err = UU.run_correspondence(run, ctx, cases)
     if err:
         run.violation("correspondence-not-evaluable", "coqc could not evaluate the C16 correspondence (Units.Dispatch.eval): " + err,
                       {}, found_input=False)
         return run.finish()
+    phase["coqc_correspondence"] = round(_t.time() - _t0, 1)
     run.cov["traces_validated_against_impl"] = len(cases) - len(mism)
     run.cov["model_impl_mismatches"] = len(mism)
     unexplained = [i for i in mism if not oracle(ctx, cases[i]["spec"], cases[i]["out"], cases[i]["ops"])]
@@ -489,8 +510,22 @@ def replay(path: str) -> int:
     dump = UU.regen()
     ctx = UU.Ctx(UU.load_units(), dump)
     if "call" not in body:
-        print(f"replay {path}: no call recorded ({body.get('what', '')[:200]}); re-run: {body.get('rerun')}")
-        return 2
+        # a table finding: evaluate the table clauses on the live module again
+        class Probe:
+            def __init__(self):
+                self.sigs = {}
+
+            def violation(self, signature, what, replay, found_input=True):
+                self.sigs[UU.slug(signature)] = what
+        probe = Probe()
+        table_violations(probe, ctx, {}, UU.python_table_offenders(ctx), TABLE_CHECKS)
+        hit = body.get("signature") in probe.sigs
+        print(json.dumps({"signature": body.get("signature"), "still_violated": hit,
+                          "what": probe.sigs.get(body.get("signature"))}, indent=1))
+        if hit:
+            print(f"VIOLATION property={PID} replay={path}")
+            return 1
+        return 0
     out, ops, _ = UU.run_call(ctx, body["call"])
     bad = oracle(ctx, body["call"], out, ops)
     print(json.dumps({"call": body["call"], "observed": out, "violated": bad[0] if bad else None}, indent=1))
